@@ -51,6 +51,11 @@ impl SnmpV1ClientSocket {
     fn get_fd(&self) -> PyResult<i32> {
         Ok(self.io.as_raw_fd())
     }
+    /// Verification hook: (request id, community)
+    #[cfg(gufo_snmp_verif)]
+    fn verif_state(&self) -> PyResult<(i64, String)> {
+        Ok((self.request_id.verif_value(), self.community.clone()))
+    }
     // .get()
     // Prepare send GET request with single oid and receive reply
     fn get(&mut self, py: Python, oid: PyBackedStr) -> PyResult<PyObject> {
